@@ -373,17 +373,19 @@ func ruleCLIStdout(c *Ctx, rule string) {
 	}
 	// the -debug flag value: a load of the pointer returned by flag.Bool("debug", ...)
 	debugVals := map[ssa.Value]bool{}
-	instrsOf(mainFn, func(in ssa.Instruction) {
-		if call, ok := in.(*ssa.Call); ok && isCallTo(in, "flag", "Bool") && len(call.Call.Args) > 0 {
-			if k, ok := call.Call.Args[0].(*ssa.Const); ok && k.Value != nil && constant.StringVal(k.Value) == "debug" {
-				for _, ref := range *call.Referrers() {
-					if u, ok := ref.(*ssa.UnOp); ok && u.Op == token.MUL {
-						debugVals[u] = true
+	for _, fn := range mainFns {
+		instrsOf(fn, func(in ssa.Instruction) {
+			if call, ok := in.(*ssa.Call); ok && isCallTo(in, "flag", "Bool") && len(call.Call.Args) > 0 {
+				if k, ok := call.Call.Args[0].(*ssa.Const); ok && k.Value != nil && constant.StringVal(k.Value) == "debug" {
+					for _, ref := range *call.Referrers() {
+						if u, ok := ref.(*ssa.UnOp); ok && u.Op == token.MUL {
+							debugVals[u] = true
+						}
 					}
 				}
 			}
-		}
-	})
+		})
+	}
 	// ... or a field/variable registered with flag.BoolVar(&x, "debug", ...): every read of that field or variable
 	type fieldKey struct {
 		t   string
@@ -428,6 +430,37 @@ func ruleCLIStdout(c *Ctx, rule string) {
 			}
 		}
 		return false
+	}
+	// ... or a field of an options record that only ever receives the flag's value (opts := options{debug: *debugArg})
+	for changed := true; changed; {
+		changed = false
+		stored := map[fieldKey][2]int{} // stores of the flag's value, other stores
+		for _, fn := range mainFns {
+			instrsOf(fn, func(in ssa.Instruction) {
+				st, ok := in.(*ssa.Store)
+				if !ok {
+					return
+				}
+				fa, ok := st.Addr.(*ssa.FieldAddr)
+				if !ok {
+					return
+				}
+				k := fieldKey{types.TypeString(deref(fa.X.Type()), nil), fa.Field}
+				n := stored[k]
+				if isDebugVal(st.Val) {
+					n[0]++
+				} else {
+					n[1]++
+				}
+				stored[k] = n
+			})
+		}
+		for k, n := range stored {
+			if n[0] > 0 && n[1] == 0 && !debugFields[k] {
+				debugFields[k] = true
+				changed = true
+			}
+		}
 	}
 	// functions of package main that can write to standard output and then return to their caller
 	writeReturn := map[*ssa.Function]bool{}
@@ -902,11 +935,21 @@ func ruleCLIOpenForWriting(c *Ctx, rule string) {
 						}
 						nret++
 						okRet := false
+						var cuts []ssa.Instruction
 						instrsOf(h, func(z ssa.Instruction) {
-							if truncates(z, ret.Results[0]) && instrDominates(z, ret) {
-								okRet = true
+							if truncates(z, ret.Results[0]) {
+								cuts = append(cuts, z)
+								if instrDominates(z, ret) {
+									okRet = true
+								}
 							}
 						})
+						if !okRet && len(cuts) > 0 {
+							// no single Truncate dominates the return: is there a feasible path to it that executes none of them?
+							if feasible, decided := feasibleAvoiding(h, cuts, ret); decided && !feasible {
+								okRet = true
+							}
+						}
 						if fl, ok := openFlags(ret.Results[0], 0); ok && fl&oTRUNC != 0 {
 							okRet = true
 						}
